@@ -107,6 +107,13 @@ CHECKS = {
         design="§3 C06, §2 E3",
         note="Trusted: testing/synctest's fake clock and quiescence detection, net.Pipe instead of TCP (one writer goroutine per scripted node because the pipe is unbuffered), the scripted node as the definition of protocol-conformant. Within one event the engine's goroutines run freely; observations are taken only at quiescence.",
     ),
+    "C07": dict(
+        engine="netwalk",
+        technique="explicit-state search (BFS with replay, synctest bubbles, real engines, scripted nodes) over scenarios with one misbehaving and one honest node: the offending header (forbidden hash, or a header contradicting a checkpoint) at position 1..3 of the misbehaving node's chain, initial store genesis/prefix, checkpoint lists, checkpoints on/off, both engines; events {connect, deliver, tick 35/200/600 s} in every order (both connection orders, reconnects during and after the ban); containment oracle after every event (forbidden hash never stored or served, its descendants only ORPHAN, sender disconnected, banned host refused until the ban duration elapsed and admitted afterwards) and the C06 fair continuation in every state",
+        text="Exhaustive to depth 6 (quick) / 8 (thorough) over 66 scenarios. The experimental engine is covered for the forbidden-header part (its checkpoints come from the network parameters, not from configuration). Checkpoint advance / unbounded requests after the last checkpoint are judged by the request oracle of C06.",
+        design="§3 C07",
+        note="Same trusted base as C06.",
+    ),
 }
 
 NOT_YET = "check not built yet in this session (work in progress; see DESIGN.md §7 for the order of work)"
